@@ -41,6 +41,7 @@ class Check(CheckBase):
     def cases(self, tier):
         ns = [0, 1, 2]
         cs = [{"label": "N%d" % n, "n": n, "split_depth": 10 if n >= 2 else None} for n in ns]
+        cs += [{"label": "N%d/after-another-index" % n, "n": n, "prior": True, "split_depth": 10 if n >= 2 else None} for n in (1, 2)]
         ks = (1, 2, 3) if tier == "quick" else (1, 2, 3, 4)
         for k in ks:
             cs.append({"label": "step/A/N%d" % k, "n": k, "step": "A", "split_depth": 8 if k >= 3 else None})
@@ -69,6 +70,11 @@ class Check(CheckBase):
         q = [run.real("q_%s" % k) for k in ("x1", "y1", "x2", "y2")]
         run.assume(q[0] <= q[2])
         run.assume(q[1] <= q[3])
+        if case.get("prior"):
+            # other indexes built and queried earlier in the same interpreter must not influence this one
+            other = rt.Index([(100, (0, 0, 1, 1)), (101, (5, 5, 6, 7)), (102, (-3, 2, -1, 2))])
+            other.intersection((0, 0, 10, 10))
+            rt.Index([(200, (1, 1, 2, 2))]).intersection((-1, -1, 0, 0))
         idx = rt.Index(list(boxes))
         run.reach("split" if idx.subtrees else "leaf")
         res = idx.intersection(tuple(q))
@@ -161,7 +167,13 @@ class Check(CheckBase):
         if case["step"] == "Bc":
             node.bboxes = []
             node.subtrees = [Stub([], symbolic_extent=True) for _ in range(n)]
-            res = node.intersection(tuple(q))
+            try:
+                res = node.intersection(tuple(q))
+            except (AttributeError, TypeError) as ex:
+                # the hand-built node does not fit this implementation's representation: lemma B cannot be stated, which
+                # is not a violation (reported as inconclusive; the end-to-end cases and lemma A still apply)
+                run.prove("step:lemma-B-applicable-to-this-representation", z3.BoolVal(False), soft=True, info={"raised": repr(ex)[:120]})
+                return
             run.reach("split")
             for st in made:
                 ext = [st.xmin.t, st.ymin.t, st.xmax.t, st.ymax.t]
@@ -171,7 +183,11 @@ class Check(CheckBase):
             return
         node.bboxes = list(boxes)
         node.subtrees = []
-        res = node.intersection(tuple(q))
+        try:
+            res = node.intersection(tuple(q))
+        except (AttributeError, TypeError) as ex:
+            run.prove("step:lemma-B-applicable-to-this-representation", z3.BoolVal(False), soft=True, info={"raised": repr(ex)[:120]})
+            return
         run.reach("leaf")
         for i, b in boxes:
             run.reach("hit" if i in res else "miss")
@@ -217,9 +233,13 @@ class Check(CheckBase):
             return self.lift(cex)
         rt = loader.native("rtree")
 
-        n = int(cex["case"][1:])
+        n = int(cex["case"][1:].split("/")[0])
         i = cex["inputs"]
         boxes = [(k, tuple(Fraction(i["b%d_%s" % (k, c)]) for c in ("x1", "y1", "x2", "y2"))) for k in range(n)]
+        if "after-another-index" in cex["case"]:
+            other = rt.Index([(100, (0, 0, 1, 1)), (101, (5, 5, 6, 7)), (102, (-3, 2, -1, 2))])
+            other.intersection((0, 0, 10, 10))
+            rt.Index([(200, (1, 1, 2, 2))]).intersection((-1, -1, 0, 0))
         q = tuple(Fraction(i["q_%s" % c]) for c in ("x1", "y1", "x2", "y2"))
         got = rt.Index(list(boxes)).intersection(q)
         exp = {k for k, b in boxes if b[0] <= q[2] and q[0] <= b[2] and b[1] <= q[3] and q[1] <= b[3]}
